@@ -76,6 +76,12 @@ claimed = {
          "The whole-history statement (responses in acceptance order, exactly once, capacity) follows from these steps only by an argument over tick interleavings that is not mechanised here."),
    note=(TB + "akita ports, message accessors and the id generator are external (extern declarations); container/list and the akita message builders are inlined from their sources."),
    design="5 (C15)", technique="deductive verification: WP-style VC generation over go/ssa + SMT (call-site obligations on the step functions)"),
+ "C16": dict(
+   text=("Step obligations of the address translator, for every state and message: translate lets an access join a pending page lookup only when that lookup is unfinished and belongs to the same process, and consumes a request "
+         "from the top port only after the lookup was sent (or joined); respond drops the in-flight record of a forwarded request only after the top port accepted its response; parseTranslation consumes a translation reply only after "
+         "it has been recorded in its transaction and the first translated request was accepted below. The end-to-end statement (every access answered exactly once with the right physical address under all interleavings) is not mechanised."),
+   note=(TB + "akita ports and message accessors are external; GetPID/GetAddress/GetRspTo are assumed to be pure accessors (extern pure). A contract whose named call site no longer exists is reported as a violation."),
+   design="5 (C16)", technique="deductive verification: WP-style VC generation over go/ssa + SMT (call-site obligations on the step functions)"),
  "C17": dict(
    text=("Under contract: interleavedBankSelector.Select (the bank depends only on the address and lies in [0, numBanks)); middleware.finalizeWrite (site obligations at the two Storage.Write calls: "
          "an unmasked write hands over the request data, a masked write hands over exactly request bytes where the mask is set and the bytes just read elsewhere, for every length and mask); "
